@@ -68,7 +68,12 @@ IntRes(c, r) ==
     CASE c.res = "int" -> <<IntArg(c, "u", r, 1) - S + IntArg(c, "g", r, 1)>>
       [] c.res = "intvec" -> <<IntArg(c, "u", r, 1) - S, IntArg(c, "x", r, 1) + IntArg(c, "t", r, 1)>>
       [] c.res = "intx" -> <<IntArg(c, "u", r, 1) - SumS([j \in DOMAIN c.ipts |-> IntArg(c, "u_integral", r, j) * c.ipts[j]])>>
+      \* derivatives under the integral: d/d(x_integral) of the model on the integral points (the integral points are shared by all
+      \* rows: the derivative of the sum over rows is  rows * m1  at every integral point) resp. d/dt of it (t is the row's own)
+      [] c.res = "intdx" -> <<IntArg(c, "u", r, 1) - Len(c.ipts) * Len(c.rows) * c.model[1]>>
+      [] c.res = "intdt" -> <<IntArg(c, "u", r, 1) - Len(c.ipts) * c.model[2]>>
 IntNeeds(res) == CASE res = "int" -> {"u", "u_integral", "g"} [] res = "intvec" -> {"u", "u_integral", "x", "t"} [] res = "intx" -> {"u", "u_integral", "x_integral"}
+                   [] res = "intdx" -> {"u", "u_integral", "x_integral"} [] res = "intdt" -> {"u", "u_integral", "t"}
 IntLossTimesN(c) == SumS([r \in DOMAIN c.rows |-> LET v == IntRes(c, r) IN SumS([k \in DOMAIN v |-> v[k] * v[k]])])
 \* ritz: integrand  u^2 - g;  param: penalty (kappa - 3)^2
 RitzTimesN(c) == SumS([r \in DOMAIN c.rows |-> UA(c, c.rows[r][1], c.rows[r][2]) * UA(c, c.rows[r][1], c.rows[r][2]) - G(c, c.rows[r][2])])
